@@ -45,6 +45,7 @@ var Quirks = []Quirk{
 	{ID: "C01-map-key-bool-or-float-gen-fails", Detect: hasBoolOrFloatMapKey, SigAny: []string{"gen-error"}},
 	{ID: "C01-body-attr-recursive-validated-user-type", Detect: hasBodyAttrRecursiveValidatedUT, SigAny: []string{"client/cli: undefined: _"}},
 	{ID: "C01-streaming-payload-validated-alias", Detect: hasStreamingPayloadValidatedAlias, SigAny: []string{"server/types: invalid operation: _ != nil (mismatched types", "client/types: invalid operation: _ != nil (mismatched types"}},
+	{ID: "C04-validation-written-in-header-mapping-not-enforced", Detect: hasHeaderMappingValidation},
 	{ID: "C01-bytes-param-with-length-validation", Detect: hasBytesParamWithLength, SigAny: []string{"client/cli: undefined: _"}},
 	{ID: "C01-result-type-required-validated-response-header", Detect: hasResultTypeRequiredValidatedHeader, SigAny: []string{"client/encode_decode: invalid operation: _ != nil (mismatched types"}},
 }
@@ -291,6 +292,23 @@ func RefsValidatedAlias(d *m.Design, a *m.Attr) bool {
 func hasStreamingPayloadValidatedAlias(d *m.Design) bool {
 	return eachMethod(d, func(s *m.Service, meth *m.Method) bool {
 		return meth.HTTP != nil && meth.StreamingPayload != nil && RefsValidatedAlias(d, meth.StreamingPayload)
+	})
+}
+
+// hasHeaderMappingValidation: a validation written in the function of a Header or Cookie mapping.
+func hasHeaderMappingValidation(d *m.Design) bool {
+	return eachMethod(d, func(s *m.Service, meth *m.Method) bool {
+		if meth.HTTP == nil || meth.Payload == nil {
+			return false
+		}
+		for _, ms := range [][]m.Mapping{meth.HTTP.Headers, meth.HTTP.Cookies} {
+			for _, mp := range ms {
+				if f := d.FieldByName(meth.Payload, mp.Attr); f != nil && f.Attr.VAtMapping {
+					return true
+				}
+			}
+		}
+		return false
 	})
 }
 
